@@ -35,6 +35,13 @@ use crate::store::*;
 use crate::types::*;
 use std::fmt::Debug;
 
+/// Maximum depth of @include statements in annotation dataset files
+const MAX_INCLUDE_DEPTH: usize = 16;
+
+thread_local! {
+    static INCLUDE_DEPTH: std::cell::Cell<usize> = std::cell::Cell::new(0);
+}
+
 /// An `AnnotationDataSet` stores the keys [`DataKey`] and values
 /// [`AnnotationData`] (which in turn encapsulates [`DataValue`]) that are used by annotations.
 /// It effectively defines a certain vocabulary, i.e. key/value pairs.
@@ -435,12 +442,23 @@ impl FromJson for AnnotationDataSet {
         debug(self.config(), || {
             format!("AnnotationStore::from_json_file: filename={:?}", filename)
         });
+        //an included file may include a file itself, guard against files that (indirectly) include themselves
+        let depth = INCLUDE_DEPTH.with(|d| d.get());
+        if depth >= MAX_INCLUDE_DEPTH {
+            return Err(StamError::DeserializationError(format!(
+                "Annotation dataset file {} is included too deeply (does it include itself?)",
+                filename
+            )));
+        }
         let reader = open_file_reader(filename, self.config())?;
         let deserializer = &mut serde_json::Deserializer::from_reader(reader);
 
-        DeserializeAnnotationDataSet::new(self)
+        INCLUDE_DEPTH.with(|d| d.set(depth + 1));
+        let result = DeserializeAnnotationDataSet::new(self)
             .deserialize(deserializer)
-            .map_err(|e| StamError::DeserializationError(e.to_string()))?;
+            .map_err(|e| StamError::DeserializationError(e.to_string()));
+        INCLUDE_DEPTH.with(|d| d.set(depth));
+        result?;
 
         Ok(())
     }
